@@ -251,6 +251,10 @@ func c08(tier string) int {
 	// ... and through the bastion endpoint: a flood of pushed-back requests
 	// must not keep an honest step out once the rate is respected again.
 	c10RateRecovery(run, "C08")
+	// Concurrent leg: readers and writers overlapping - no schedule ends with a
+	// thread that can never proceed (a store that deadlocks answers no honest
+	// step ever again).
+	c05Concurrent(run, "C08", tier)
 	// Upgrade leg: nothing an earlier release stored stops the next honest step.
 	legacyDBLeg(run, "C08")
 	run.Set("states", len(statesSeen))
